@@ -5,7 +5,8 @@ CONSTANTS
   Stateless = TRUE
   MaxSlots = 2
   MaxParked = 2
+  StoreModes = {}
 INVARIANTS MintOnlyOnCreate DeadStaysDead UserBound NoTimeoutDuringPost StatelessNoIds ClosedAndForgotten TimerDiscipline
-PROPERTIES MintStep AtMostOneSession DeadForever ResAlways
+PROPERTIES MintStep AtMostOneSession DeadForever DeleteKills ResAlways
 VIEW MCView
 CHECK_DEADLOCK FALSE
